@@ -50,8 +50,94 @@ fn parse_type(t: &str) -> Result<(bool, bool, String), String> {
     Ok((optional, vec, base.to_string()))
 }
 
-/// strict reader of the documented layout (derive must not contain a newline)
+/// Remove Rust comments (line comments incl. doc comments, nested block comments) the way rustc lexes them, outside
+/// string literals. Comments are legal in the rendered source and say nothing about the struct items; a line that held
+/// nothing but a comment disappears with its line break. An unterminated block comment is an error (the rest of the
+/// source would be swallowed by it).
+pub fn strip_comments(src: &str) -> Result<std::borrow::Cow<'_, str>, String> {
+    if !src.contains("//") && !src.contains("/*") {
+        return Ok(std::borrow::Cow::Borrowed(src));
+    }
+    let b = src.as_bytes();
+    let mut out: Vec<u8> = Vec::with_capacity(b.len());
+    // per output line: did a comment start or continue on it?
+    let mut touched_lines: Vec<bool> = vec![false];
+    let mut i = 0;
+    let mut in_str = false;
+    while i < b.len() {
+        let c = b[i];
+        if in_str {
+            out.push(c);
+            if c == b'\\' && i + 1 < b.len() {
+                out.push(b[i + 1]);
+                i += 2;
+                continue;
+            }
+            if c == b'"' {
+                in_str = false;
+            }
+            if c == b'\n' {
+                touched_lines.push(false);
+            }
+            i += 1;
+            continue;
+        }
+        if c == b'"' {
+            in_str = true;
+            out.push(c);
+            i += 1;
+        } else if c == b'/' && b.get(i + 1) == Some(&b'/') {
+            *touched_lines.last_mut().unwrap() = true;
+            while i < b.len() && b[i] != b'\n' {
+                i += 1;
+            }
+        } else if c == b'/' && b.get(i + 1) == Some(&b'*') {
+            *touched_lines.last_mut().unwrap() = true;
+            let mut depth = 1;
+            i += 2;
+            while depth > 0 {
+                if i >= b.len() {
+                    return Err("unterminated block comment (block comments nest in Rust)".into());
+                }
+                if b[i] == b'/' && b.get(i + 1) == Some(&b'*') {
+                    depth += 1;
+                    i += 2;
+                } else if b[i] == b'*' && b.get(i + 1) == Some(&b'/') {
+                    depth -= 1;
+                    i += 2;
+                } else {
+                    if b[i] == b'\n' {
+                        // a comment spanning lines: the line break inside it goes away with it
+                        *touched_lines.last_mut().unwrap() = true;
+                    }
+                    i += 1;
+                }
+            }
+        } else {
+            out.push(c);
+            if c == b'\n' {
+                touched_lines.push(false);
+            }
+            i += 1;
+        }
+    }
+    let text = String::from_utf8(out).map_err(|e| format!("comment removal broke UTF-8: {}", e))?;
+    let mut kept: Vec<&str> = Vec::new();
+    for (k, line) in text.split('\n').enumerate() {
+        let touched = touched_lines.get(k).copied().unwrap_or(false);
+        if touched && line.trim().is_empty() {
+            continue;
+        }
+        kept.push(if touched { line.trim_end() } else { line });
+    }
+    let res = kept.join("\n");
+    Ok(std::borrow::Cow::Owned(res))
+}
+
+/// strict reader of the documented layout (derive must not contain a newline); comments are removed first
 pub fn read_lines(src: &str) -> Result<Vec<StructDef>, String> {
+    let stripped = strip_comments(src)?;
+    let src: &str = &stripped;
     let mut out = Vec::new();
     let lines: Vec<&str> = src.split('\n').collect();
     let mut i = 0;
@@ -181,6 +267,8 @@ pub fn read_syn(src: &str) -> Result<Vec<StructDef>, String> {
                 } else {
                     return Err("derive is not a list".into());
                 }
+            } else if a.path().is_ident("doc") {
+                // a doc comment
             } else {
                 return Err(format!("unexpected attribute on struct {}", st.ident));
             }
@@ -197,6 +285,9 @@ pub fn read_syn(src: &str) -> Result<Vec<StructDef>, String> {
             let ident = f.ident.as_ref().ok_or("unnamed field")?.to_string();
             let mut rename = None;
             for a in &f.attrs {
+                if a.path().is_ident("doc") {
+                    continue;
+                }
                 if !a.path().is_ident("serde") {
                     return Err(format!("unexpected attribute on field {}", ident));
                 }
@@ -353,4 +444,47 @@ pub fn build_tree(defs: &[StructDef], prefix: &str, text_id: &str) -> Result<RNo
         return Err(format!("{} struct items are not reachable from the first struct", defs.len() - idx));
     }
     Ok(root)
+}
+
+#[cfg(test)]
+mod strip_tests {
+    use super::*;
+
+    const PLAIN: &str = "#[derive(Serialize, Deserialize)]\npub struct A {\n    #[serde(rename = \"@k\")]\n    pub k: String,\n    pub b: Option<String>,\n}\n\n";
+
+    #[test]
+    fn source_without_comments_is_untouched() {
+        assert!(matches!(strip_comments(PLAIN).unwrap(), std::borrow::Cow::Borrowed(_)));
+        assert_eq!(read_both(PLAIN).unwrap().len(), 1);
+    }
+
+    #[test]
+    fn doc_comments_are_not_struct_items() {
+        let src = "/// generated from a\n/** block\n over lines */\n#[derive(Serialize, Deserialize)]\npub struct A {\n    /// the key // with slashes\n    #[serde(rename = \"@k\")]\n    pub k: String, // trailing\n    /* a /* nested */ one */\n    pub b: Option<String>,\n}\n\n";
+        assert_eq!(strip_comments(src).unwrap(), PLAIN);
+        let d = read_both(src).unwrap();
+        assert_eq!(d.len(), 1);
+        assert_eq!(d[0].fields.len(), 2);
+    }
+
+    #[test]
+    fn slashes_inside_string_literals_stay() {
+        let src = "#[derive(Serialize, Deserialize)]\npub struct A {\n    #[serde(rename = \"a//b/*\")]\n    pub k: String,\n}\n\n";
+        assert_eq!(strip_comments(src).unwrap(), src);
+    }
+
+    #[test]
+    fn unterminated_nested_block_comment_is_an_error() {
+        let src = "/** served below /api/* */\npub struct A {\n    pub k: String,\n}\n\n";
+        assert!(strip_comments(src).is_err());
+        assert!(read_both(src).is_err());
+        assert!(read_lines(src).is_err());
+    }
+
+    #[test]
+    fn prose_outside_a_comment_is_still_rejected() {
+        let src = "pub struct A {\n    /// unit price,\n       in EUR\n    pub k: String,\n}\n\n";
+        assert!(read_lines(src).is_err());
+        assert!(read_syn(src).is_err());
+    }
 }
